@@ -14,11 +14,11 @@ VIS = 'trackers::visual_sort::track_attributes::VisualAttributes'
 
 # (adt suffix, field) -> (allowed writer suffixes, properties, reason)
 TABLE = {
-    ('sort::SortAttributes', 'observed_boxes'): (['SortAttributes::update_history'], ['C01', 'C13'],
+    ('sort::SortAttributes', 'observed_boxes'): (['@update_history:sort'], ['C01', 'C13'],
                                                  'history is appended and trimmed in one place'),
-    ('sort::SortAttributes', 'predicted_boxes'): (['SortAttributes::update_history'], ['C01', 'C13'],
+    ('sort::SortAttributes', 'predicted_boxes'): (['@update_history:sort'], ['C01', 'C13'],
                                                   'history is appended and trimmed in one place'),
-    ('sort::SortAttributes', 'track_length'): (['SortAttributes::update_history'], ['C01', 'C13'],
+    ('sort::SortAttributes', 'track_length'): (['@update_history:sort'], ['C01', 'C13'],
                                                'length counts history updates'),
     ('sort::SortAttributes', 'last_updated_epoch'): (['TrackAttributes>::merge', 'TrackAttributesUpdate>::apply'],
                                                      ['C03'], 'epoch stamp moves only with an update / a merge'),
@@ -26,13 +26,13 @@ TABLE = {
                                            'a track never changes its scene after initialisation'),
     ('sort::SortAttributes', 'state'): (['TrackAttributesKalmanPrediction>::set_state'], ['C07'],
                                         'filter state is stored only by make_prediction through set_state'),
-    ('track_attributes::VisualAttributes', 'observed_boxes'): (['VisualAttributes::update_history'], ['C13'],
+    ('track_attributes::VisualAttributes', 'observed_boxes'): (['@update_history:visual'], ['C13'],
                                                                'history is appended and trimmed in one place'),
-    ('track_attributes::VisualAttributes', 'predicted_boxes'): (['VisualAttributes::update_history'], ['C13'],
+    ('track_attributes::VisualAttributes', 'predicted_boxes'): (['@update_history:visual'], ['C13'],
                                                                 'history is appended and trimmed in one place'),
-    ('track_attributes::VisualAttributes', 'observed_features'): (['VisualAttributes::update_history'], ['C13'],
+    ('track_attributes::VisualAttributes', 'observed_features'): (['@update_history:visual'], ['C13'],
                                                                   'history is appended and trimmed in one place'),
-    ('track_attributes::VisualAttributes', 'track_length'): (['VisualAttributes::update_history'], ['C13'],
+    ('track_attributes::VisualAttributes', 'track_length'): (['@update_history:visual'], ['C13'],
                                                              'length counts history updates'),
     ('track_attributes::VisualAttributes', 'visual_features_collected_count'): (
         ['VisualMetric as track::ObservationMetric>::optimize'], ['C12', 'C13'],
@@ -60,6 +60,18 @@ TABLE = {
 }
 
 
+def resolve_roles(sfx):
+    """'@update_history:<kind>' -> the helper discovered by role (rules/helpers.py; renaming it is silent)"""
+    import trackerlib
+    out = []
+    for x in sfx:
+        if x.startswith('@update_history:'):
+            out.append(trackerlib.UPDATE_HISTORY[x.split(':', 1)[1]])
+        else:
+            out.append(x)
+    return out
+
+
 def root_fn(b):
     p = b.npath
     while '::{closure#' in p:
@@ -75,6 +87,7 @@ def run(ctx, R, prop):
     for (adt, field), (allowed_sfx, props, reason) in sorted(TABLE.items()):
         if prop not in props:
             continue
+        allowed_sfx = resolve_roles(allowed_sfx)
         muts = field_mutators(F, adt, field, skip=wiring.skip_body)
         fns = {}
         for b, sites in muts.items():
